@@ -102,6 +102,9 @@ def run(chk, gate, status):
         cases.append((rg, make_queries(rng, rg, chk.tier)))
     chk.assumptions += ["no dilute step with new_name (known finding D31: the tracking queries identify containers by name)",
                         "fill_to steps address containers or whole plates (known finding D13 changes what a slice fill does; it is reported under C08/C07)"]
+    for p in recipes.directed_recipes():
+        rp = recipes.Replayed(p)
+        cases.insert(0, (rp, make_queries(random.Random(chk.seed * 7 + len(cases)), rp, chk.tier)))
     cov = recipes.check(chk, 'C09', cases, oracle, RULE, nontrivial)
     cov['queries_under_configuration_variants'] = recipes.variants(chk, cases, oracle, 'C09v', limit=8 if chk.tier == 'quick' else 60)
     return cov
